@@ -45,11 +45,14 @@
   structure without context (`WhoHasRequest.limits`, `ReadRangeRequest.range`),
   the hand-written `NameValue` codec.  What stays outside (trusted, tied by the
   correspondence): primitive leaves are opaque application-tag payloads
-  (`leafOK`; their meaning is C01), and the octet-level corollary assumes the
+  (`leafOK`; their meaning is C01 — `leaf_of_prim` (Lemmas/C03Prim) shows that
+  every tag C01's encoder emits for a representable value IS such a leaf and
+  that C01's decoder recovers the value from it), and the octet-level corollary assumes the
   emitted tags are well-formed in the sense of C02 (tag number ≤ 255 — contexts
   ≤ 254 are part of `WFEnv` — and data shorter than 2^32 octets).
 -/
 import BacVerif.Lemmas.C03Def
+import BacVerif.Lemmas.C03Prim
 import BacVerif.Gen.Schemas
 import BacVerif.Props.C02
 namespace BacVerif.C03
